@@ -356,6 +356,60 @@ func tagsFormats(res *vkit.Result) {
 	}
 }
 
+// ---------- (4b) gRPC tags when ammo objects are recycled ----------
+
+// grpcTagsRecycled: a grpc/json file in which some lines carry a tag and some do not, read 100
+// times by one instance — the provider recycles its ammo objects once its 128-entry queue has
+// been through. Sample k must carry the tag of line k mod 7 (none, or __EMPTY__, where the line has none).
+func grpcTagsRecycled(res *vkit.Result) {
+	tgt, err := vkit.NewGRPCTarget()
+	if err != nil {
+		res.Inconclusive(true, "grpc target: %v", err)
+		return
+	}
+	defer tgt.Close()
+	tags := []string{"hello", "", "auth", "x", "", "", "last"}
+	var b strings.Builder
+	for i, t := range tags {
+		if t == "" {
+			fmt.Fprintf(&b, `{"call":"target.TargetService.Hello","payload":{"name":"n%d"}}`+"\n", i)
+		} else {
+			fmt.Fprintf(&b, `{"tag":"%s","call":"target.TargetService.Hello","payload":{"name":"n%d"},"metadata":{"k%d":"v"}}`+"\n", t, i, i)
+		}
+	}
+	path := vkit.WriteMem([]byte(b.String()))
+	defer vkit.RemoveMem(path)
+	const passes = 100
+	samples, rr, err := runPool(pool(map[string]any{"type": "grpc/json", "file": path, "passes": passes},
+		map[string]any{"type": "grpc", "target": tgt.Addr, "timeout": "3s"}, 1), 120*time.Second)
+	c := map[string]any{"check": "grpc tags with recycled ammo", "lines": tags, "passes": passes}
+	if err != nil || rr.Err != nil || rr.Hang {
+		res.Violate("C10/grpc-tags/run", fmt.Sprintf("pool failed: %v %v", err, rr.Err), c)
+		return
+	}
+	if len(samples) != passes*len(tags) {
+		res.Violate("C10/grpc-tags/sample-count", fmt.Sprintf("%d calls, %d samples", passes*len(tags), len(samples)), c)
+		return
+	}
+	wrong, first := 0, ""
+	for k, s := range samples {
+		want := tags[k%len(tags)]
+		// an untagged line: the plain gRPC gun reports the empty tag as it is (only the HTTP and the
+		// scenario guns substitute __EMPTY__); either is the line's own tag
+		if s.Tags != want && !(want == "" && s.Tags == "__EMPTY__") {
+			wrong++
+			if first == "" {
+				first = fmt.Sprintf("sample %d (line %d) tagged %q, want %q", k, k%len(tags), s.Tags, want)
+			}
+		}
+	}
+	if wrong > 0 {
+		res.Violate("C10/grpc-tags/tag", fmt.Sprintf("%d of %d samples carry another line's tag, e.g. %s", wrong, len(samples), first), c)
+	}
+	res.Count("grpc_tag_samples", int64(len(samples)))
+	res.Eval("grpc-tags-recycled", true)
+}
+
 // ---------- (4) gRPC codes ----------
 
 var grpcTable = map[codes.Code]int{codes.OK: 200, codes.Canceled: 499, codes.InvalidArgument: 400, codes.DeadlineExceeded: 504, codes.NotFound: 404,
@@ -729,6 +783,7 @@ func main() {
 	tags(res)
 	tagsFormats(res)
 	grpcCodes(res)
+	grpcTagsRecycled(res)
 	httpScenario(res)
 	recycledSamples(res, 4, 150, 400)
 	recycledSamples(res, 1, 60, 120)
